@@ -379,8 +379,8 @@ class Ctx:
         self.oblige(f"{props_file}: Print Assumptions within allow-list ({n_pa} printed, {closed} closed)",
                     not bad and (closed + (1 if axioms else 0)) >= 1 if n_pa else True,
                     "axioms outside the allow-list: " + ", ".join(bad) if bad else "")
-        self.cov["axioms_reported"] = axioms
-        self.cov["theorems"] = names
+        self.cov["axioms_reported"] = sorted(set(self.cov.get("axioms_reported", [])) | set(axioms))
+        self.cov["theorems"] = list(self.cov.get("theorems", [])) + [n for n in names if n not in self.cov.get("theorems", [])]
         if self.tier == "thorough" and os.environ.get("VERIF_NO_COQCHK") != "1":
             # independent re-check of the compiled property file and everything it depends on
             rc, chk = sh(["timeout", "1500", "coqchk", "-silent", "-o", "-Q", "theories", "VTL", f"VTL.Props.{props_file}"], cwd=COQ, timeout=1600)
